@@ -17,5 +17,3 @@ mod c09;
 mod c11;
 #[cfg(kani)]
 mod c12;
-#[cfg(kani)]
-mod probe;
